@@ -32,6 +32,9 @@ var c03Faults = []string{
 	"a-issuer-missing", "a-issuer-wrong", "a-subject-missing", "a-subjconf-missing", "a-method-wrong",
 	"a-scd-missing", "a-recipient-missing", "a-recipient-wrong", "a-nooa-missing", "a-nooa-malformed", "a-nooa-expired",
 	"misroute-other-sp", "delay-past-expiry",
+	// an element called Issuer from a namespace that is not SAML's, carrying the expected value, instead
+	// of / after a saml:Issuer that names somebody else: it is not the Issuer
+	"resp-issuer-only-foreign-ns", "resp-issuer-wrong-then-foreign-ns", "a-issuer-only-foreign-ns", "a-issuer-wrong-then-foreign-ns",
 }
 
 func c03Expect(f string) []errSpec {
@@ -42,6 +45,9 @@ func c03Expect(f string) []errSpec {
 		return []errSpec{{"invalid", []string{"destination"}}}
 	case "resp-issuer-missing", "a-issuer-missing":
 		return []errSpec{{"missing", []string{"issuer"}}}
+	case "resp-issuer-only-foreign-ns", "resp-issuer-wrong-then-foreign-ns", "a-issuer-only-foreign-ns", "a-issuer-wrong-then-foreign-ns":
+		// the message is also malformed (an element the schema has no place for): any rejection will do
+		return []errSpec{{"any", nil}}
 	case "resp-issuer-wrong", "a-issuer-wrong":
 		return []errSpec{{"invalid", []string{"issuer"}}}
 	case "status-missing":
@@ -77,6 +83,11 @@ func c03Expect(f string) []errSpec {
 }
 
 func errMatches(err error, specs []errSpec) bool {
+	for _, s := range specs {
+		if s.typ == "any" && err != nil {
+			return true
+		}
+	}
 	// errors.As: a typed error stays typed when a refactor wraps it
 	var ev saml2.ErrVerification
 	if errors.As(err, &ev) && ev.Cause != nil {
@@ -122,7 +133,7 @@ func init() {
 			"directed prefix: fault kind x position x n x placement x issuer configured or not; distinct = shape hash (fault, position, n, placement, issuer-configured, layout, outcome class)",
 		Directed:   c03Directed,
 		Run:        c03Run,
-		MustHit:    []string{"nonconforming_idp", "misroute", "delay_past_expiry", "position>0", "place=R", "place=A", "place=RA", "place=none", "issuer_unconfigured", "redelivery_after_change", "encrypted_only_with_checking_off", "assertions_encrypted", "validate_called_directly", "assertion_without_authn_statement"},
+		MustHit:    []string{"nonconforming_idp", "misroute", "delay_past_expiry", "position>0", "place=R", "place=A", "place=RA", "place=none", "issuer_unconfigured", "redelivery_after_change", "encrypted_only_with_checking_off", "assertions_encrypted", "validate_called_directly", "assertion_without_authn_statement", "earlier_delivery_rejected_while_decoding"},
 		RandomRuns: map[string]int{"quick": 8000, "thorough": 60000},
 		Assumptions: []string{"error identity is compared by Go type and by the SAML element/attribute name it carries, never by message text",
 			"a fault is injected alone; with several simultaneous violations any of the corresponding errors is allowed"},
@@ -227,6 +238,14 @@ func c03Run(r *core.Run) {
 		m.Assertions = nil
 	case "a-issuer-missing":
 		a.Issuer = nil
+	case "resp-issuer-only-foreign-ns":
+		m.Issuer, m.ForeignIssuer = nil, strp(goodIssuer)
+	case "resp-issuer-wrong-then-foreign-ns":
+		m.Issuer, m.ForeignIssuer = strp("https://evil-idp.example/meta"), strp(goodIssuer)
+	case "a-issuer-only-foreign-ns":
+		a.Issuer, a.ForeignIssuer = nil, strp(goodIssuer)
+	case "a-issuer-wrong-then-foreign-ns":
+		a.Issuer, a.ForeignIssuer = strp("https://evil-idp.example/meta"), strp(goodIssuer)
 	case "a-issuer-wrong":
 		a.Issuer = strp(wrongIssuer)
 	case "a-subject-missing":
@@ -289,11 +308,37 @@ func c03Run(r *core.Run) {
 	}
 	now = s.Node.Now()
 	enc := world.Present(xml, t.Bool("c03.compress"), 6)
-	switch t.Int(6, "c03.ambient") {
+	switch t.Int(8, "c03.ambient") {
 	case 1:
 		s.NeighbourNoise(enc)
 	case 2:
 		s.WarmUpThenReconfigure(enc)
+	case 3:
+		// an earlier delivery that was complete where this one is not, and that the SP had to turn down
+		// half-way through decoding (AuthnInstant of the assertion at the same position is not a dateTime):
+		// nothing of it may be found in the outcome of the delivery under test
+		pm := world.GenResponse(t, s.IdP, fed, now, n, false)
+		if pa := pm.Assertions[pos]; pa.Authn != nil {
+			pa.Authn.AuthnInstant = strp([]string{"yesterday", "2001-01-01", ""}[t.Int(3, "c03.prior.bad")])
+			pa.NameID = strp("mallory@prior.example")
+			s.ApplyPlacement(pm, place, true)
+			if pxml, err := s.IdP.Issue(pm, world.Layout{}, r.Sim.Now()); err == nil {
+				penc := world.Present(pxml, false, 6)
+				var po world.Outcome
+				if t.Bool("c03.prior.retrieve") {
+					_, po = s.Node.Retrieve(penc)
+				} else {
+					_, po = s.Node.ValidateResponse(penc)
+				}
+				r.Steps++
+				r.Fault("earlier_delivery_rejected_while_decoding")
+				r.Logf("prior undecodable delivery -> %s %s", po.Class(), world.ErrClass(po.Err))
+				if po.OK() {
+					r.Fail("reject", "C03/undecodable-instant-accepted", obs("n", n, "position", pos, "place", placeNames[place]))
+					return
+				}
+			}
+		}
 	}
 	useRetrieve := t.Bool("c03.retrieve")
 	var out world.Outcome
@@ -333,7 +378,7 @@ func c03Run(r *core.Run) {
 	}
 	// the exported Validate called directly on a Response the application decoded itself (no signature
 	// involved): the same profile checks decide
-	violatesD := fault != "none" && !(!issuerCfg && (fault == "resp-issuer-wrong" || fault == "a-issuer-wrong"))
+	violatesD := fault != "none" && !(!issuerCfg && (fault == "resp-issuer-wrong" || fault == "a-issuer-wrong" || strings.HasSuffix(fault, "-wrong-then-foreign-ns")))
 	if !encrypted && t.Int(4, "c03.direct") == 1 && !r.Failed() {
 		dr := &types.Response{}
 		if err := world.AppDecode(xml, dr); err == nil {
@@ -398,6 +443,9 @@ func c03Run(r *core.Run) {
 	violates := fault != "none"
 	if !issuerCfg && (fault == "resp-issuer-wrong" || fault == "a-issuer-wrong") {
 		violates = false // any issuer is fine when none is configured
+	}
+	if !issuerCfg && strings.HasSuffix(fault, "-wrong-then-foreign-ns") {
+		return // any issuer is fine, and the stray element is not something the profile speaks about
 	}
 	expect := c03Expect(fault)
 	if encrypted && place == PlaceNone && len(m.Assertions) > 0 {
